@@ -157,11 +157,27 @@ func oracleC03(w *World, c *Case) {
 	checkH2FP(w, c, aux.Scripts, aux.N)
 }
 
+// oracleC07: the snapshot oracle, and "requests are handled while further frames keep
+// arriving": every request of the (legal) session was forwarded once and answered.
+func oracleC07(w *World, c *Case) {
+	oracleC03(w, c)
+	by := w.ReqsByTag()
+	cl := w.Clients[0]
+	for _, rq := range c.Aux.(*c03Aux).Scripts[0].Reqs {
+		st := cl.Streams[rq.Stream]
+		if len(by[rq.Spec.Tag]) != 1 || st == nil || !st.Ended {
+			w.Violate("request_not_handled", "request_not_handled", "%s (stream %d): forwarded %d times, response complete=%v at the end of the run (client step errors %v, GOAWAY %v)", rq.Spec.Tag, rq.Stream, len(by[rq.Spec.Tag]), st != nil && st.Ended, cl.StepErrs, cl.GoAway != nil)
+			return
+		}
+	}
+	w.Probe("every_request_handled")
+}
+
 // ----------------------------------------------------------------- C07
 
 func init() {
 	register(&CheckDef{ID: "C07", Level: "exploration", Engine: "A", Draw: drawC07,
-		Rule: "one HTTP/2 connection, 2-8 concurrently open streams whose handlers are parked by a yielding header injector placed before the real HTTP/2 injector while the controller delivers further SETTINGS / WINDOW_UPDATE / PRIORITY / HEADERS frames (one TLS write per frame) and releases handlers in any order; snapshot oracle: each request's fingerprint equals the fingerprint of one prefix of the frame history between its own HEADERS and its forwarding (single sequential writer, so linearizability of the reads reduces to interval membership). Race mode (-race build): the same sessions coalesced into one TLS write with no fence, so that capture and Marshal fall into one quantum where the race detector sees them. Non-trivial: >= 2 requests reached the back-end. Distinct: distinct controller action-label sequences."})
+		Rule: "one HTTP/2 connection, 2-8 concurrently open streams whose handlers are parked by a yielding header injector placed before the real HTTP/2 injector while the controller delivers further SETTINGS / WINDOW_UPDATE / PRIORITY / HEADERS frames (one TLS write per frame) and releases handlers in any order; snapshot oracle: each request's fingerprint equals the fingerprint of one prefix of the frame history between its own HEADERS and its forwarding (single sequential writer, so linearizability of the reads reduces to interval membership); every request of the session is forwarded exactly once and answered completely (a lock cycle between capture and Marshal shows up here: lock waits count as blocked in the worker's runtime). Race mode (-race build): the same sessions coalesced into one TLS write with no fence, so that capture and Marshal fall into one quantum where the race detector sees them. Non-trivial: >= 2 requests reached the back-end. Distinct: distinct controller action-label sequences."})
 }
 
 func drawC07(t *rapid.T) *Case {
@@ -195,7 +211,7 @@ func drawC07(t *rapid.T) *Case {
 	p.CaptureFences = !race && drawBool(t, "capturefences", 60)
 	p.Args = append(p.Args, "-reverse-proxy-flush-interval", "0s")
 	p.Tape, p.Tail = drawTape(t, 128)
-	c := &Case{Plan: p, Metas: []*ClientMeta{m}, Oracle: oracleC03, Aux: aux}
+	c := &Case{Plan: p, Metas: []*ClientMeta{m}, Oracle: oracleC07, Aux: aux}
 	c.Nontrivial = func(w *World, c *Case) bool { return len(w.BackReqs) >= 2 }
 	var sb strings.Builder
 	fmt.Fprintf(&sb, "race=%v limit=%d fences=%v | c0:", race, aux.N, p.Fences)
